@@ -15,12 +15,12 @@ open MediaSan
 inductive Data (C : Type) where
   | bytes (b : Bytes)
   | parsed (c : C)
-  deriving Repr
+  deriving Repr, DecidableEq
 
 structure Box (C : Type) where
   hdr : BoxHeader        -- parsed_header
   data : Data C
-  deriving Repr
+  deriving Repr, DecidableEq
 
 /-- serialisation side of a parsed payload type (`ParsedBox::{encoded_len, put_buf}`) -/
 structure Ser (C : Type) where
@@ -207,7 +207,7 @@ def validateMoov (d : Data L5) : PureRes (Data L5 × Nat) := do
 
 /-- big-endian entries of `width` bytes each, shifted by `disp`; `InvalidInput` when a result leaves the field -/
 def displaceEntries (width : Nat) (disp : Int) : Nat → Bytes → PureRes Bytes
-  | 0, _ => .ok []
+  | 0, bs => .ok bs
   | fuel + 1, bs =>
     if width = 0 ∨ bs.length < width then .ok bs     -- chunks_exact: a short tail is left untouched
     else
